@@ -78,6 +78,7 @@ pub mod reactive_graph;
 /// A type-erased container.
 pub mod erased;
 
+#[cfg_attr(leptos_verif, allow(dead_code))]
 pub(crate) trait UnwrapOrDebug {
     type Output;
 
